@@ -28,7 +28,7 @@ GSM_MAX_FN = 2715648        # 26 * 51 * 2048
 # sched_gsmtime_execute() never hands over an event requested for frame 0 or 1 of the hyperframe (fn + 2 unreduced): proved as
 # c08_gsm_frame01_refuted and observed on the real code in every run (counted as finding-candidate).  Switch on once the finding is
 # registered in known_findings.json under the key c08-gsmtime-frame01-never-fires.
-REPORT_WRAP_FINDING = False
+REPORT_WRAP_FINDING = True
 SRC = "src/target/firmware/layer1/tdma_sched.c"
 SRC_G = "src/target/firmware/layer1/sched_gsmtime.c"
 
